@@ -7,6 +7,7 @@
            [5; s; topic...]          Server.Unsubscribe
            [6; bytes...]             Server.Publish of the PUBLISH packet
            [7]                       Server.Close
+           [8; q; retain; tlen; topic...; payload...]  Server.Publish of a message built with the setters
    observation per event, canonical: for every connection in ascending order its packets
    ([1; c; len; bytes...]; runs of consecutive PUBLISH packets sorted, since the fan-out order is
    the iteration order of Go maps) and its closure ([2; c]); then the in-process calls sorted
@@ -49,6 +50,12 @@ Definition b_event (s : bstate) (ev : list N) : bstate * list out :=
   | 5 :: sub :: topic => (mkBS (srv_unsubscribe (bs_br s) sub topic) (bs_pend s) (bs_buf s), [])
   | 6 :: b => let '(br1, o) := srv_publish (bs_br s) b in (mkBS br1 (bs_pend s) (bs_buf s), o)
   | [7] => let '(br1, o) := srv_close (bs_br s) in (mkBS br1 (bs_pend s) (bs_buf s), o)
+  | 8 :: q :: ret :: tl :: rest =>
+      (* Server.Publish of a message built with the setters (no packet identifier yet) *)
+      let w1 := match pub_set_qos pub_new q with Some x => x | None => pub_new end in
+      let w2 := match pub_set_topic w1 (firstn (N.to_nat tl) rest) with Some x => x | None => w1 end in
+      let w3 := pub_set_retain (pub_set_payload w2 (skipn (N.to_nat tl) rest)) (negb (ret =? 0)) in
+      let '(br1, o) := on_publish (bs_br s) w3 in (mkBS br1 (bs_pend s) (bs_buf s), o)
   | _ => (s, [])
   end.
 
